@@ -101,7 +101,7 @@ Record sig_table := mk_sig {
   choice_kinds : list kind;         (* acceptable kinds of the if-true clause *)
   choice_compat : bool;             (* branches must have the same type is checked *)
   compat_enum_by_name : bool;       (* _types_are_compatible compares enum names *)
-  pos_req : list (position * kind); (* positions with a required kind *)
+  pos_req : list (position * list kind); (* positions with a restricted set of kinds *)
   param_decl_kinds : list kind;     (* kinds a runtime parameter may have *)
   pass_arity : bool;                (* number of passed parameters is checked *)
   pass_kind : bool;                 (* which_type of each passed parameter is checked *)
@@ -116,7 +116,7 @@ Fixpoint lookup_mono (l : list (fn * msig)) (f : fn) : option msig :=
   | (g, s) :: r => if fn_eqb g f then Some s else lookup_mono r f
   end.
 
-Fixpoint lookup_pos (l : list (position * kind)) (p : position) : option kind :=
+Fixpoint lookup_pos (l : list (position * list kind)) (p : position) : option (list kind) :=
   match l with
   | [] => None
   | (q, k) :: r => if position_eqb q p then Some k else lookup_pos r p
@@ -138,25 +138,26 @@ Definition impl_table : sig_table := mk_sig
   true
   true [KInt; KBool; KEnum] true
   true
-  [ (PStart, KInt); (PSize, KInt); (PArrayLen, KInt); (PCond, KBool); (PRequires, KBool) ]
+  [ (PStart, [KInt]); (PSize, [KInt]); (PArrayLen, [KInt]); (PCond, [KBool]); (PRequires, [KBool]);
+    (PEnumValue, [KInt; KEnum]) ]
   [KInt; KEnum]
-  true true false [KInt; KBool; KEnum]
-  [KBool; KOpaque].
+  true true true [KInt; KBool; KEnum]
+  [].
 
 (* the table of the DOCUMENTED language *)
 Definition doc_table : sig_table := mk_sig
   [ (FAdd, sig_int2); (FSub, sig_int2); (FMul, sig_int2);
     (FAnd, sig_bool2); (FOr, sig_bool2);
     (FMax, mk_msig TInt (AKind KInt) None 1 None);
-    (FPresent, mk_msig TBool (ARef false) None 1 (Some 1));
+    (FPresent, mk_msig TBool (ARef true) None 1 (Some 1));
     (FUpper, sig_int1); (FLower, sig_int1) ]
   [KInt; KBool; KEnum]
   [KInt]
   true
   true [KInt; KBool; KEnum] true
   true
-  [ (PStart, KInt); (PSize, KInt); (PArrayLen, KInt); (PCond, KBool); (PRequires, KBool);
-    (PEnumValue, KInt) ]
+  [ (PStart, [KInt]); (PSize, [KInt]); (PArrayLen, [KInt]); (PCond, [KBool]); (PRequires, [KBool]);
+    (PEnumValue, [KInt; KEnum]) ]
   [KInt; KEnum]
   true true true [KInt; KBool; KEnum; KOpaque]
   [].
@@ -263,7 +264,7 @@ Inductive op_sig : fn -> list shape -> list ty -> ty -> Prop :=
 | S_choice s1 s2 s3 t : value_ty t -> op_sig FChoice [s1; s2; s3] [TBool; t; t] t
 | S_max shs tys : tys <> [] -> length shs = length tys -> Forall (eq TInt) tys ->
                   op_sig FMax shs tys TInt
-| S_present t : op_sig FPresent [ShField] [t] TBool
+| S_present s t : s <> ShOther -> op_sig FPresent [s] [t] TBool   (* a field, or a parameter (always present) *)
 | S_bound f s : is_bound f = true -> op_sig f [s] [TInt] TInt.
 
 (* typing derivations over an operator-level signature relation R *)
@@ -282,20 +283,18 @@ Inductive has_type_gen (R : fn -> list shape -> list ty -> ty -> Prop) (G : tenv
 (* the documented typing relation *)
 Definition has_type : tenv -> texpr -> ty -> Prop := has_type_gen op_sig.
 
-(* the three extra signatures the implementation accepts (findings F13, F12) *)
+(* the extra signature the implementation accepts (finding F13) *)
 Inductive op_quirk : fn -> list shape -> list ty -> ty -> Prop :=
-| Q_ord_enum f s1 s2 e : is_ord f = true -> op_quirk f [s1; s2] [TEnum e; TEnum e] TBool
-| Q_present_param t : op_quirk FPresent [ShParam] [t] TBool.
+| Q_ord_enum f s1 s2 e : is_ord f = true -> op_quirk f [s1; s2] [TEnum e; TEnum e] TBool.
 
 Definition op_impl f shs tys t : Prop := op_sig f shs tys t \/ op_quirk f shs tys t.
 
 (* boolean guard: the expression contains none of the quirk nodes *)
 Definition quirk_node (G : tenv) (f : fn) (args : list texpr) : bool :=
-  (is_ord f && match map (typecheck impl_table G) args with
-               | [TOk (TEnum _); TOk (TEnum _)] => true
-               | _ => false
-               end)
-  || (fn_eqb f FPresent && match args with [XParam _] => true | _ => false end).
+  is_ord f && match map (typecheck impl_table G) args with
+              | [TOk (TEnum _); TOk (TEnum _)] => true
+              | _ => false
+              end.
 
 Fixpoint guard (G : tenv) (e : texpr) {struct e} : bool :=
   match e with
@@ -374,6 +373,7 @@ Fixpoint teval (r : venv) (e : texpr) {struct e} : option value :=
       | FPresent =>
           match args with
           | [XField i] => Some (VBool (present r i))
+          | [XParam _] => Some (VBool true)     (* a parameter is always present *)
           | _ => None
           end
       | _ =>
@@ -398,7 +398,7 @@ Inductive mres :=
 
 Definition pos_check (T : sig_table) (p : position) (t : ty) : bool :=
   match lookup_pos (pos_req T) p with
-  | Some k => kind_eqb (kind_of t) k
+  | Some ks => mem_kind (kind_of t) ks
   | None => true
   end.
 
@@ -473,7 +473,8 @@ Definition typecheck_module (T : sig_table) (G : tenv) (m : list item) : mres :=
 (* documented: what each position demands *)
 Definition pos_demands (p : position) (t : ty) : Prop :=
   match p with
-  | PStart | PSize | PArrayLen | PEnumValue => t = TInt
+  | PStart | PSize | PArrayLen => t = TInt
+  | PEnumValue => t = TInt \/ exists e, t = TEnum e   (* a number, or (an expression of) another enum value *)
   | PCond | PRequires => t = TBool
   | PAny => True     (* e.g. the value of an attribute: typed by the attribute table, C14 *)
   end.
@@ -491,7 +492,6 @@ Fixpoint well_typed_items (G : tenv) (items : list item) : Prop :=
    impl_table and the documented rules can disagree about one item *)
 Definition pass_pair_quirk (ft : ty * ty) : bool :=
   match ft with
-  | (TEnum x, TEnum y) => negb (N.eqb x y)          (* F14: some enum for THE enum *)
   | (TOpaque, t) => negb (ty_eqb t TOpaque)         (* undeclarable formal: comparison skipped *)
   | _ => false
   end.
@@ -501,8 +501,6 @@ Definition item_quirk (G : tenv) (it : item) : bool :=
   | ILet _ e => negb (guard G e)
   | IPos p e =>
       negb (guard G e)
-      || (position_eqb p PEnumValue
-          && match typecheck impl_table G e with TOk TInt => false | _ => true end)
   | IPass fs acts =>
       negb (forallb (guard G) acts)
       || match check_actuals impl_table G acts 0 with
